@@ -24,6 +24,9 @@ func init() {
 				}
 				all := versionTemplates(eco, "m")
 				vs := pick(eco, all, nv)
+				if fr := freeRunOf(eco); fr != "" && !has(vs, fr) {
+					vs = append(vs, fr)
+				}
 				third := thin(all, 2)
 				for _, s := range vs {
 					for _, pd := range pads {
